@@ -41,7 +41,8 @@ CHECKS.update({
         text='Random deterministic models over all atoms/spellings/variable types in ro and dro front ends are solved; '
              'each user constraint (convex atoms, cones, piecewise-linear maxof/minof constraints with numeric pieces) '
              'and the objective are evaluated by NumPy at x.get(); a violated constraint or a misreported objective is '
-             'the witness. icontract post-condition on rso_broadcast is on.',
+             'the witness. Perspective / exp-cone constraints of dro models whose arguments have different event-wise adaptivity are '
+             'evaluated per scenario at the returned point. icontract post-condition on rso_broadcast is on.',
         note='Closed forms in rv/atoms.py define the meaning of atoms; solver tolerances 1e-6 / 2e-5.',
         ref='4/C06', engine='rv-reference'),
     'C07': dict(
@@ -71,7 +72,8 @@ CHECKS.update({
     'C14': dict(
         technique='runtime reference-model monitor: dual-certificate identities on the user data',
         text='dual() of every constraint/bound object returned by st() is checked for shape, stationarity, dual objective '
-             '= optimum and signs, for HiGHS, Gurobi and ECOS on LPs with every bound pattern.',
+             '= optimum and signs, for HiGHS, Gurobi and ECOS on LPs with every bound pattern (up to 50 rows; a group of rows '
+             'added after a first solve and a first round of dual() reads).',
         note='Identities (not particular values) are checked, so degenerate optima cannot cause false alarms.',
         ref='4/C14', engine='rv-reference'),
     'C16': dict(
@@ -139,7 +141,8 @@ CHECKS.update({
         text='The same declared ro/dro model is built by a hostile history (distractor sets, mid-way do_math/dual/solve with '
              'varying interfaces, late constraints/variables/rules, a random variable declared between two uses of a rule, '
              'reused expression objects, redefined supports and probability sets, one event declared in two exptset calls, '
-             'second ambiguity object) and by a fresh build; optimum and captured support programs must agree; an exception in one '
+             'second ambiguity object, forall() attached to constraints already in the model, adapt() calls made after the '
+             'constraints or after a first solve, sets without any linear piece) and by a fresh build; optimum and captured support programs must agree; an exception in one '
              'only is a disagreement.',
         note='One open known finding (dro dvar declared after constraints raises); same interface for both builds.',
         ref='4/C09', engine='rv-differential'),
@@ -149,7 +152,8 @@ CHECKS.update({
              'event); model.get, x.get, x(), slices, affine/convex/bi-affine calls with assign() (random mixes of '
              'decision, additive-random, product and constant terms, every subset of the random variables assigned), '
              'rules declared as vectors or matrices (coefficients with NaN pattern, .T, rows, sums), per-scenario '
-             'labelling are compared with NumPy values.',
+             'labelling, reads made before a re-solve, dro variables adapting to two blocks of random variables are compared '
+             'with NumPy values.',
         note='Pinning determines the solution uniquely; solver accuracy 1e-6 on tiny programs.',
         ref='4/C12', engine='rv-reference'),
     'C13': dict(
